@@ -51,8 +51,9 @@ func VerifH_C09_retryLoop() {
 	if longPause {
 		min = 40 * time.Minute
 	}
-	rb := &RetriableBatcher{outFn: outFn, onRetryError: onErr, isDeadQueueAvailable: dead,
-		backoffOpts: BackoffOpts{MinRetention: min, Multiplier: 2, AttemptNum: attempt, IsDeadQueueAvailable: dead}}
+	// built by the real constructor (its batcher is not started: Out is driven directly)
+	rb := NewRetriableBatcher(&BatcherOptions{Controller: &verifOutCtl{sent: map[*Event]bool{}, commits: map[*Event]int{}}, Workers: 1, BatchSizeCount: 4, FlushTimeout: verifFlush},
+		outFn, BackoffOpts{MinRetention: min, Multiplier: 2, AttemptNum: attempt, IsDeadQueueAvailable: dead}, onErr)
 	var data WorkerData
 	rb.Out(&data, batch)
 
@@ -99,4 +100,50 @@ func VerifH_C09_retryLoop() {
 		}
 	}
 	vf.Observe("calls", calls, onErrCalls)
+}
+
+// C09.H1b: the retry pauses of one worker's failing batch keep growing while another worker of the
+// same batcher sends other batches (each send has its own retry policy state).
+func VerifH_C09_retryPausesWithOtherWorker() {
+	fails := 3 + vf.Choose("failures", 2)
+	bad := NewPreparedBatch([]*Event{{SeqID: 1, Size: 1}})
+	calls := 0
+	var callTimes []int64
+	outFn := func(_ *WorkerData, b *Batch) error {
+		if b != bad {
+			return nil
+		}
+		calls++
+		callTimes = append(callTimes, vf.Now())
+		if calls <= fails {
+			return errVerifSend
+		}
+		return nil
+	}
+	min := 40 * time.Millisecond
+	rb := NewRetriableBatcher(&BatcherOptions{Controller: &verifOutCtl{sent: map[*Event]bool{}, commits: map[*Event]int{}}, Workers: 2, BatchSizeCount: 4, FlushTimeout: verifFlush},
+		outFn, BackoffOpts{MinRetention: min, Multiplier: 2, AttemptNum: 10}, func(error, []*Event) {})
+	otherDone := false
+	go func() { // the other worker: a new batch every 15 ms
+		var d WorkerData
+		for j := 0; j < vf.Param("J", 20); j++ {
+			rb.Out(&d, NewPreparedBatch([]*Event{{SeqID: uint64(100 + j), Size: 1}}))
+			time.Sleep(15 * time.Millisecond)
+		}
+		otherDone = true
+	}()
+	var data WorkerData
+	rb.Out(&data, bad)
+	if vf.Param("twin", 0) == 1 {
+		vf.Assert(len(callTimes) <= 1, "pause-grows")
+		return
+	}
+	lo := int64(min) / 2 // library randomisation 0.5
+	for i := 1; i < len(callTimes); i++ {
+		vf.Assert(callTimes[i]-callTimes[i-1] >= lo, "pause-grows")
+		lo *= 2
+	}
+	vf.Assert(len(callTimes) == fails+1, "retried-until-success")
+	_ = otherDone
+	vf.Reach("retried-beside-other-worker")
 }
